@@ -70,6 +70,14 @@ func (vc *VC) exec(rs *runState, ins ssa.Instruction) {
 	case *ssa.UnOp:
 		switch ins.Op {
 		case token.MUL:
+			if g, ok := ins.X.(*ssa.Global); ok {
+				// a never-reassigned function-valued global evaluates to the function it was initialised with
+				vc.e.scanGlobals()
+				if gi := vc.e.constGlob[g]; gi != nil && gi.constant && gi.fn != nil {
+					vc.vals[ins] = vc.val(gi.fn)
+					return
+				}
+			}
 			p := vc.val(ins.X)
 			vc.oblige("safety.nil", pc, sNot(sEq(p.C[0], "0")), ins.Pos(), "nil pointer dereference")
 			et := ins.Type()
